@@ -34,6 +34,8 @@
 //!  [17, id]            reset_acked                         -> [0]
 //!  [18, dir]           Streams::accept                     -> [0, id] | [1] (None)
 //!  [19]                full projection                     -> see `observe`
+//!  [21]                retransmit_all_for_0rtt (a Retry arrived); the sent-frame log is discarded
+//!                      (as `Connection` takes its 0-RTT sent packets)   -> [0]
 //! ```
 //! Log discipline of ops 10/11 (each sent frame is acknowledged or declared lost at most once,
 //! and never after a 0-RTT rejection) mirrors `Connection`'s sent-packet table; it is harness
@@ -366,6 +368,13 @@ impl Ctx {
                 }
             }
             19 => self.observe(),
+            21 => {
+                self.st.retransmit_all_for_0rtt();
+                for e in self.log.iter_mut() {
+                    *e = None;
+                }
+                vec![0]
+            }
             _ => vec![-1],
         }
     }
